@@ -32,20 +32,21 @@ ASSUMPTIONS = [
 ]
 SHARDS = {"quick": 16, "thorough": 16}
 MINIMUMS = {
-    "quick": {"crash_cases": 600, "deaths_at_point": 550, "relaunches": 600, "natural_ends": 8, "locks_tried": 300, "signal:SIGKILL": 80, "signal:SIGTERM": 80, "signal:SIGINT": 80, "signals_in_body": 30, "signals_in_finalizer": 8, "double_faults": 40},
+    "quick": {"crash_cases": 600, "deaths_at_point": 550, "relaunches": 600, "natural_ends": 8, "locks_tried": 300, "signal:SIGKILL": 80, "signal:SIGTERM": 80, "signal:SIGINT": 80, "signals_in_body": 30, "signals_in_finalizer": 8, "double_faults": 40, "kills_in_handler": 40, "kills_in_handler_died": 10, "kills_after_cleanup_began": 4},
     "thorough": {"crash_cases": 1200, "deaths_at_point": 1100, "relaunches": 2000, "natural_ends": 40, "locks_tried": 1200, "double_faults": 200, "signals_in_body": 120, "signals_in_finalizer": 8},
 }
 TIMEOUT = {"quick": 2400, "thorough": 14400}
 INJECT = str(VERIF / "lib" / "inject")
-VARIANTS = {"quick": ["ok", "raise", "exit3", "fork"], "thorough": ["ok", "raise", "exit3", "fork"]}
+VARIANTS = {"quick": ["ok", "raise", "exit3", "fork", "exit0"], "thorough": ["ok", "raise", "exit3", "fork", "exit0"]}
+SUCCEEDS = ("ok", "fork", "exit0")
 SIGNALS = ["SIGKILL", "SIGTERM", "SIGINT"]
 QUAL = "TaskRunner,run,rmfile,TaskBase.execute,_append,fromParameters,load_objects,progress,report_eoj,Reporter,Env"
 FILES_PRIMARY = "experimaestro/run.py,xvmodels/zoo.py"
 FILES_SECONDARY = "experimaestro/run.py,xvmodels/zoo.py,experimaestro/core/objects.py,experimaestro/notifications.py,experimaestro/taskglobals.py"
 
 
-def generate(ctx, mode, tag):
-    """A real job directory produced by a generate-only submission."""
+def generate(ctx, mode, tag, gate=None):
+    """A real job directory produced by a generate-only submission (gate: the body waits for a go-file there)."""
     from experimaestro import experiment
     from experimaestro.scheduler.workspace import RunMode
     from xvmodels import zoo
@@ -58,16 +59,20 @@ def generate(ctx, mode, tag):
     try:
         xp.workspace.launcher.setenv("PYTHONPATH", f"{REPO}/src:{VERIF}/lib")
         xp.workspace.launcher.setenv("XV_LOG", "body.log")
+        if gate is not None:
+            xp.workspace.launcher.setenv("XV_GO", str(gate))
         t = zoo.TaskT(x=7, mode=mode)
         t.submit()
         job = t.__xpm__.job
         return wd, Path(job.path), job.name
     finally:
-        xp.__exit__(RuntimeError, None, None)
+        xpctx.leave_experiment(xp)
 
 
-def launch(jobdir, name, n=0, sig="SIGKILL", files=FILES_PRIMARY, crashlog=None, timeout=90):
+def launch(jobdir, name, n=0, sig="SIGKILL", files=FILES_PRIMARY, crashlog=None, timeout=90, second=None):
     env = {"PATH": os.environ.get("PATH", ""), "HOME": os.environ.get("HOME", "/tmp"), "PYTHONDONTWRITEBYTECODE": "1", "PYTHONPATH": f"{INJECT}:{REPO}/src", "VERIF_CRASH": f"{n}:{sig}:{crashlog or ''}", "VERIF_CRASH_FILES": files, "VERIF_CRASH_QUAL": QUAL}
+    if second:
+        env["VERIF_CRASH2"] = f"{second[0]}:{second[1]}"
     p = subprocess.Popen([PYTHON, str(jobdir / f"{name}.py")], env=env, stdout=subprocess.DEVNULL, stderr=subprocess.PIPE, cwd="/", start_new_session=True)
     (jobdir / f"{name}.pid").write_text(json.dumps({"type": "local", "pid": p.pid}))
     try:
@@ -117,8 +122,8 @@ def check_natural(ctx, mode, snap, rc, w, what):
     """Invariants after a process that ended on its own."""
     ctx.count("natural_ends")
     if snap["pid"]:
-        ctx.violation("pid-file-left-after-natural-end:" + ("success" if mode in ("ok", "fork") else "failure"), f"{what}: the job ended on its own (exit status {rc}) and left its .pid file", w)
-    if mode in ("ok", "fork"):
+        ctx.violation("pid-file-left-after-natural-end:" + ("success" if mode in SUCCEEDS else "failure"), f"{what}: the job ended on its own (exit status {rc}) and left its .pid file", w)
+    if mode in SUCCEEDS:
         if not snap["done"] or snap["failed"]:
             ctx.violation("markers-after-success", f"{what}: success leaves done={snap['done']} failed={snap['failed']}", w)
     else:
@@ -207,6 +212,56 @@ def swallowed_exit(ctx, mode):
         shutil.rmtree(wd, ignore_errors=True)
 
 
+def kill_in_handler(ctx, mode, sig, m):
+    """A termination signal sent from outside while the body waits, then SIGKILL at the m-th line event counted from the
+    first line of the runner's handler - while it writes the failure marker, removes the process file, releases the
+    lock, reports the end of the job.  Whenever the handler got as far as removing the process file, the failure marker
+    must already be there."""
+    tag = f"kh-{mode}-{sig}-{m}-{random.randrange(10**9)}"
+    gate = ctx.scratch / f"gate-{tag}"
+    gate.mkdir(parents=True, exist_ok=True)
+    wd, jobdir, name = generate(ctx, mode, tag, gate=gate)
+    w = {"variant": mode, "point": m, "where": f"line event {m} of the signal handler", "signal": sig, "files": FILES_PRIMARY, "second": ["kill-in-handler", m]}
+    p = None
+    try:
+        env = {"PATH": os.environ.get("PATH", ""), "HOME": os.environ.get("HOME", "/tmp"), "PYTHONDONTWRITEBYTECODE": "1", "PYTHONPATH": f"{INJECT}:{REPO}/src", "VERIF_CRASH": f"{m}:SIGKILL:", "VERIF_CRASH_FILES": FILES_PRIMARY, "VERIF_CRASH_QUAL": QUAL, "VERIF_CRASH_ARM": "TaskRunner.handle_error"}
+        p = subprocess.Popen([PYTHON, str(jobdir / f"{name}.py")], env=env, stdout=subprocess.DEVNULL, stderr=subprocess.DEVNULL, cwd="/", start_new_session=True)
+        (jobdir / f"{name}.pid").write_text(json.dumps({"type": "local", "pid": p.pid}))
+        t0 = time.time()
+        while time.time() - t0 < 60 and snapshot(jobdir, name)["starts"] == 0 and p.poll() is None:
+            time.sleep(0.01)
+        if snapshot(jobdir, name)["starts"] != 1 or p.poll() is not None:
+            ctx.inconclusive(f"kill-in-handler: the body did not reach its waiting point ({snapshot(jobdir, name)})")
+            return
+        os.kill(p.pid, getattr(signal, sig))
+        try:
+            rc = p.wait(60)
+        except subprocess.TimeoutExpired:
+            ctx.inconclusive("kill-in-handler: the victim did not end")
+            return
+        snap = snapshot(jobdir, name)
+        ctx.count("kills_in_handler")
+        in_body = snap["starts"] == 1 and snap["ends"] == 0
+        if rc == -signal.SIGKILL:
+            ctx.count("kills_in_handler_died")
+            if in_body and not snap["pid"]:
+                ctx.count("kills_after_cleanup_began")
+        if in_body and not snap["pid"] and not snap["failed"] and rc == -signal.SIGKILL:
+            ctx.violation("failure-marker-missing-after-cleanup", f"{sig} while the body runs, SIGKILL at line event {m} of the handler: the process file is already removed (cleanup ran) but there is no failure marker: {snap}", w)
+        if snap["done"]:
+            ctx.violation("done-marker-without-completed-body", f"{sig} while the body waits, SIGKILL at line event {m} of the handler: .done exists", w)
+        ctx.case({"v": mode, "s": sig, "kill-in-handler": m}, nontrivial=True, sample={"variant": mode, "signal": sig, "handler_line_event": m, "exit": rc, "after": snap}, max_samples=2)
+    finally:
+        if p is not None and p.poll() is None:
+            try:
+                os.killpg(p.pid, signal.SIGKILL)
+            except Exception:
+                pass
+            p.wait()
+        shutil.rmtree(wd, ignore_errors=True)
+        shutil.rmtree(gate, ignore_errors=True)
+
+
 def worker(ctx):
     xpctx.quiet()
     rng = ctx.rng
@@ -224,7 +279,7 @@ def worker(ctx):
             for i, p in enumerate(pts):
                 for sig in SIGNALS:
                     cases.append((mode, i + 1, sig, FILES_PRIMARY, p.split(" ", 1)[1], None))
-            if mode in ("ok", "fork"):
+            if mode in SUCCEEDS:
                 # a launch that succeeds, then a launch of the finished job hit by a catchable signal, then a third one
                 shared = random.Random(f"c10-{os.environ.get('VERIF_SEED', '0')}-{mode}")  # the same sample in every shard
                 for j in sorted(shared.sample(range(len(pts)), min(len(pts), 30 if ctx.tier == "quick" else 60))):
@@ -238,6 +293,11 @@ def worker(ctx):
                     i = rng.randrange(len(pts))
                     j = rng.randrange(len(pts))
                     cases.append((mode, i + 1, rng.choice(SIGNALS), FILES_PRIMARY, pts[i].split(" ", 1)[1], (j + 1, rng.choice(SIGNALS))))
+        # second fault inside the handler: {SIGTERM, SIGINT} from outside while the body waits x SIGKILL at handler line m
+        khs = [("ok", sg, m) for m in range(1, 25) for sg in ("SIGTERM", "SIGINT")]
+        for k, kh in enumerate(khs):
+            if k % ctx.nshards == ctx.shard:
+                kill_in_handler(ctx, *kh)
         # complete enumeration, split between the shards
         cases.sort(key=lambda c: (c[0], c[1], c[2], c[3], str(c[5])))
         if ctx.tier == "quick":
